@@ -252,6 +252,24 @@ def check_function(ctx, res: Result, fi: FuncInfo, exceptions=None, rule="G-mass
                     why += f"; exception-table precondition no longer holds: {bad}"
         if not handled:
             res.bad(rule, inst, fi.site(st), fi.qualname, why, construct=src(st)[:200])
+    # D.update(other) overwrites every key of `other` that D already holds: inside an iteration that is an assignment,
+    # not an accumulation, unless D is known to be empty there
+    stored_dicts = {src(st.targets[0].value) for st in walk_no_nested(fi.node) if isinstance(st, ast.Assign) and len(st.targets) == 1 and isinstance(st.targets[0], ast.Subscript)}
+    stored_dicts |= {src(st.target.value) for st in walk_no_nested(fi.node) if isinstance(st, ast.AugAssign) and isinstance(st.target, ast.Subscript)}
+    for c in walk_no_nested(fi.node):
+        if isinstance(c, ast.Call) and isinstance(c.func, ast.Attribute) and c.func.attr == "update" and len(c.args) == 1 and isinstance(c.func.value, ast.Name):
+            D = c.func.value.id
+            enc = _enclosing(par, c, fi.node)
+            in_loop = any(k == "for" for k, _n, _b in enc)
+            if not in_loop or D not in stored_dicts:
+                continue
+            n += 1
+            empty_guard = any(k == "if" and b == "body" and isinstance(nd.test, ast.UnaryOp) and isinstance(nd.test.op, ast.Not) and src(nd.test.operand) == D for k, nd, b in enc)
+            inst = f"{fi.qualname}:{D}.update(...)"
+            if empty_guard:
+                res.ok(rule, inst, fi.site(c), fi.qualname, "d:emptiness-guarded update")
+            else:
+                res.bad(rule, inst, fi.site(c), fi.qualname, f"`{src(c)[:60]}` inside an iteration replaces the weight of every outcome already present in `{D}` instead of adding to it: outcomes reached from more than one term of the mixture lose mass", construct=src(c)[:160])
     # dictionary comprehensions are stores too: two elements with the same key keep only the last value
     for dc in walk_no_nested(fi.node):
         if not isinstance(dc, ast.DictComp):
